@@ -372,7 +372,9 @@ P_manage_processes(s, f) ==
     \* remove_expired_processes(): age() > max_age with a clock whose later reading is always larger: on the model's
     \* grid a worker is expired from the instant its age REACHES max_age.  All expired workers are killed side by side,
     \* then those the kill really took care of are reaped
-    [] fr.pc = "2" -> LET ex == SelectSeq(PidSeq(wr), LAMBDA p : s.now - s.k[p].born >= wr.mage) IN
+    \* (born is in ms: a blocking reap pushes real time off the model's 0.1 s grid, and the trace spec sets the birth
+    \*  of a worker to the time its spawn line carries)
+    [] fr.pc = "2" -> LET ex == SelectSeq(PidSeq(wr), LAMBDA p : s.now * 100 - s.k[p].born >= wr.mage * 100) IN
                       Goto(SetM(SetL(s, f, ex), f, ex), f, "2a")
     [] fr.pc = "2a" -> IF fr.m = <<>> THEN Await(s, f, "2b")
                        ELSE Call(SetM(s, f, Tail(fr.m)), f, "2a", "kill_process", i, Head(fr.m), wr.ssig, wr.G)
@@ -427,7 +429,7 @@ P_spawn_process(s, f, ob) ==
                    Line("spawnfail", "", 0, 0, Head(s.faults), ""))
          ELSE LET p == Len(s.k) + 1
                   s1 == [s EXCEPT !.k = Append(@, [st |-> "run", ws |-> -1, par |-> 0, obeys |-> ob, dying |-> 0,
-                                                   owner |-> i, stp |-> FALSE, rc |-> FALSE, rcv |-> 0, born |-> s.now]),
+                                                   owner |-> i, stp |-> FALSE, rc |-> FALSE, rcv |-> 0, born |-> s.now * 100]),
                                   !.faults = IF @ = <<>> THEN @ ELSE Tail(@),
                                   !.fr[f].p = p, !.fr[f].a = NextWid(s, i)]
               IN Emit(Goto(s1, f, "2p"), Line("spawn", WN(s, i), p, IF ob THEN 1 ELSE 0, "", WL(s, i)))
@@ -1135,7 +1137,7 @@ MustSettle(s) == s.cur = <<>> /\ Dying(s) # {}
 Fork(s, p, ob) ==
   LET c == Len(s.k) + 1 IN
   WithObs(Emit([Fresh(s) EXCEPT !.k = Append(@, [st |-> "run", ws |-> -1, par |-> p, obeys |-> ob, dying |-> 0,
-                                                owner |-> 0, stp |-> FALSE, rc |-> FALSE, rcv |-> 0, born |-> s.now])],
+                                                owner |-> 0, stp |-> FALSE, rc |-> FALSE, rcv |-> 0, born |-> s.now * 100])],
                Line("fork", "", c, p, "", "")))
 DueTimers(s) == { t \in s.tm : t.due <= s.now }
 \* a due timer fires (any of the due ones): its frame resumes
